@@ -95,6 +95,7 @@ class MonteCarlo(SensitivityAnalysis):
             results.append(result)
 
         self._results = pd.DataFrame(results)
+        self.tolerancing.reset()
 
     def view_histogram(self, kde=True):
         """
